@@ -542,7 +542,7 @@ func runC06(c *Ctx) {
 		return
 	}
 	mon.DiscardStdLog()
-	nd := c.Pick(512, 8192)
+	nd := c.Pick(512, 65536)
 	var mu sync.Mutex
 	var evals int64
 	cells := map[string]int64{}
@@ -621,7 +621,7 @@ func runC06(c *Ctx) {
 	})
 
 	// (2) histories
-	nh := c.Pick(40000, 1000000)
+	nh := c.Pick(40000, 12000000)
 	shapes := mon.NewDistinct(4_000_000)
 	var hsteps, hacc, hdef int64
 	Parallel(64, func(sh int) {
